@@ -180,7 +180,7 @@ LAST_STRETCH = {
  'C10': 'RecordArray::field / fieldindex / haskey by key with util::fieldindex: a key is the field of that name, else the position it spells exactly ("0", "1", ...), else std::invalid_argument (haskey: false, never raises) - '
         'keys with a numeric prefix, sign, blank, leading zero, beyond int, empty, and fields named by digits.',
  'C11': 'ListOffsetArray64::validityerror with the offsets a window into a longer buffer: the rule kernel (decided on its own above) is handed the window\'s starts and stops, the list count and the content length; '
-        'otherwise the content\'s answer is returned. getitem_next_missing_jagged (a jagged slice with None lists, the content answering opaque or with a real IndexedOptionArray64): spans per entry, None where either has None, no option node directly inside another. validityerror of ListArray64 / IndexedArray64 / IndexedOptionArray64 with index buffers that are windows into longer buffers (the windows, the entry count, the content length and the option flag reach the rule kernel); is_unique of the indexed classes asks exactly about the non-missing entries the window selects.',
+        'otherwise the content\'s answer is returned. getitem_next_missing_jagged (a jagged slice with None lists, the content answering opaque or with a real IndexedOptionArray64): spans per entry, None where either has None, no option node directly inside another. validityerror of ListArray64 / IndexedArray64 / IndexedOptionArray64 / UnionArray8_64 with index buffers that are windows into longer buffers (the windows, the entry count, the content length and the option flag reach the rule kernel); is_unique of the indexed classes asks exactly about the non-missing entries the window selects.',
  'C17': 'RecordArray::key(position) for every 64-bit position (name inside, std::invalid_argument outside - also below zero); form(materialize) of every list / indexed / option node class (15 classes and variants): a Form of the node\'s own kind, '
         'index tags naming the real width, size / valid_when / lsb_order the node\'s, no identities, content form = the content\'s answer (read back from memory; replay through Form::tojson); NumpyArray::form (inner shape, item size, format, dtype) and RecordArray::form (shared names, one content form per field in order); '
         'type() of the 15 list / indexed / option node classes without parameters: var * T, size * T, ?T, T with T the type the content form reports (replay through Type::tostring). RecordArray depth queries over fields of arbitrary depths ((1, 1) / (false, 1) without fields); NumpyArray::type (d1 * d2 * ... * dtype outermost first); UnionArray8_{32,U32,64}::form.',
